@@ -6,7 +6,7 @@ Import ListNotations.
 Open Scope Z_scope.
 
 Section C07.
-  Variables (A W : Type) (wsrc : nat -> Z) (exec : A -> W -> Z -> W * list (cmd A)).
+  Variables (A W : Type) (wsrc : nat -> Z) (exec : A -> W -> Z -> W * list (cmd A)) (wfail : W -> bool).
 
   (** pause withholds exactly the asset's pending events (moved, in order, to the
       paused list stamped with the current time); all others stay where they are *)
@@ -25,9 +25,9 @@ Section C07.
 
   (** only the queue head is ever dispatched, so a withheld (paused) event is not *)
   Theorem C07_paused_not_dispatched : forall s,
-    reach A W wsrc exec s ->
+    reach A W wsrc exec wfail s ->
     forall x y, In x (queue (snd s)) -> In y (paused (snd s)) -> e_id x <> e_id y.
-  Proof. intros s R x y. exact (inv_queue_paused_disj A (snd s) x y (reach_inv A W wsrc exec s R)). Qed.
+  Proof. intros s R x y. exact (inv_queue_paused_disj A (snd s) x y (reach_inv A W wsrc exec wfail s R)). Qed.
 
   (** unpause re-inserts exactly the asset's paused events, each at original time +
       length of the pause, keeping the queue sorted; others untouched *)
@@ -73,17 +73,17 @@ Section C07.
   (** dispatching a cancelled event runs no action: world unchanged, no calls *)
   Theorem C07_cancelled_dispatch_is_noop : forall w (en : env A) e q,
     queue en = e :: q -> e_cancelled e = true ->
-    step wsrc exec (w, en) = Some (Ok (w, popped A en e q)).
-  Proof. exact (step_cancelled_noop A W wsrc exec). Qed.
+    step wsrc exec wfail (w, en) = Some (Ok (w, popped A en e q)).
+  Proof. exact (step_cancelled_noop A W wsrc exec wfail). Qed.
 
   (** once cancelled, always cancelled: in every continuation (steps, external calls,
       runs, resumptions of cancelled events) every record of that event is flagged,
       so by the previous theorem its action never runs *)
   Theorem C07_cancelled_never_runs : forall s s' e,
     In e (queue (snd s) ++ paused (snd s)) -> e_cancelled e = true ->
-    Inv A (snd s) -> reach_from A W wsrc exec s s' ->
+    Inv A (snd s) -> reach_from A W wsrc exec wfail s s' ->
     forall e', In e' (all_events A (snd s')) -> e_id e' = e_id e -> e_cancelled e' = true.
-  Proof. exact (cancelled_never_runs A W wsrc exec). Qed.
+  Proof. exact (cancelled_never_runs A W wsrc exec wfail). Qed.
 
   (** events scheduled after the pause / cancel call are unaffected *)
   Theorem C07_schedule_after_pause : forall (en : env A) a t p a' act en',
